@@ -303,6 +303,13 @@ func TestC17(t *testing.T) {
 		}
 		all := strings.Join(reports, "\n") + string(out)
 		raceReports = strings.Count(all, "WARNING: DATA RACE")
+		if raceReports == 0 && strings.Contains(all, "fatal error: concurrent map") {
+			_ = os.WriteFile("/verif/replays/C17-race-report.txt", []byte(all), 0o644)
+			run.Violate(h.Violation{Signature: "C17/race: the runtime aborted with a concurrent map access during the free-running pass", Monitor: "C17/race-pass",
+				Message: "see /verif/replays/C17-race-report.txt", Replay: map[string]interface{}{"report_file": "/verif/replays/C17-race-report.txt"}})
+			err = nil
+			raceRuns = max(raceRuns, 1)
+		}
 		if raceReports > 0 {
 			// signature = the functions of /repo at the top of the two racing access stacks; a report whose
 			// accesses are both in harness code is a harness bug, not a verdict
